@@ -14,11 +14,15 @@ Definition dsp_nlines (i : list bytes) : nat := get_nat i (13 + 2 * dsp_nverbs i
 Definition dsp_code (i : list bytes) (k : nat) : nat :=
   Nat.modulo (get_nat i (14 + 2 * dsp_nverbs i + k)) 1000.
 
-(* internal handlers behind a line: h_001 / h_PING / h_433, and with tracking the state handler *)
+(* internal handlers behind a line: h_001 / h_PING / h_433; with tracking every verb is a
+   state-changing one; without tracking the pool is PING, PRIVMSG, CTCP, NICK, NOTICE, 372, V7
+   (index 1..7) of which PING, CTCP and NICK have a built-in handler.  n_int is not observable
+   and no monitor depends on it. *)
 Definition dsp_line (i : list bytes) (k : nat) : linfo :=
   let c := dsp_code i k in
   if Nat.ltb c (dsp_nverbs i)
-  then {| n_int := if Nat.eqb c 0 then 1 else if dsp_track i then 1 else 0;
+  then {| n_int := if Nat.eqb c 0 then 1 else if dsp_track i then 1
+                   else match Nat.modulo (c - 1) 7 with 0%nat | 2%nat | 3%nat => 1 | _ => 0 end;
           n_fg := get_nat i (13 + 2 * c); n_bg := get_nat i (14 + 2 * c);
           welcome := Nat.eqb c 0 |}
   else {| n_int := 1; n_fg := 0; n_bg := 0; welcome := false |}.
